@@ -79,6 +79,9 @@ func (s *Snap) Norm() string {
 	}
 	var b strings.Builder
 	for i := range s.Parts {
+		if s.Parts[i].HiLen <= s.Parts[i].Lo { // an empty slice has no value, whatever its capacity (nil == empty)
+			continue
+		}
 		b.WriteString(s.Parts[i].Norm)
 		b.WriteByte('\n')
 	}
